@@ -1,2 +1,22 @@
 (* C05 — the property theorems about the scheduler model, and nothing else. *)
 From VF Require Import Sched.Proofs.
+Open Scope Z_scope.
+
+(* The platform queue chosen for a request is registered, has the request's
+   platform, its instance name prefix is a prefix of the request's instance
+   name, and no registered queue with that platform has a longer matching
+   prefix. *)
+Theorem longest_prefix_pq_sound : forall s plat inst p,
+  longest_prefix_pq s plat inst = Some p ->
+  In p (s_pqs s) /\ pk_plat (p_key p) = plat /\ is_prefix (pk_prefix (p_key p)) inst = true /\
+  forall q, In q (s_pqs s) -> pk_plat (p_key q) = plat -> is_prefix (pk_prefix (p_key q)) inst = true ->
+    (List.length (pk_prefix (p_key q)) <= List.length (pk_prefix (p_key p)))%nat.
+Proof. exact longest_prefix_pq_sound. Qed.
+Print Assumptions longest_prefix_pq_sound.
+
+(* No queue is chosen only if no registered queue matches. *)
+Theorem longest_prefix_pq_none : forall s plat inst,
+  longest_prefix_pq s plat inst = None ->
+  forall q, In q (s_pqs s) -> pk_plat (p_key q) = plat -> is_prefix (pk_prefix (p_key q)) inst = false.
+Proof. exact longest_prefix_pq_none. Qed.
+Print Assumptions longest_prefix_pq_none.
